@@ -1424,7 +1424,45 @@ fn equiv(rep: &mut Report) {
             }
         }
     }
-    // `#[ts(skip)]` suppresses serde parsing on fields and variants; `with` needs as/type
+    // `#[ts(skip)]` wins over everything serde says at the same field / variant - also over serde entries
+    // that would be rejected at that position without it: every skippable position x every serde entry
+    // that occurs anywhere in the slots (valid or not where it is put) and every unsupported entry x
+    // both attribute orders
+    if serde_compat {
+        const SKIP_POSITIONS: &[(&str, &str)] = &[
+            ("named-field", "struct S { @ a: i32, b: i32 }"),
+            ("named-field-option", "struct S { @ a: Option<i32>, b: i32 }"),
+            ("tuple-struct-field", "struct S(@ i32, String);"),
+            ("newtype-struct-field", "struct S(@ i32);"),
+            ("unit-variant", "enum E { @ A, B(i32) }"),
+            ("newtype-variant", "enum E { @ A(i32), B }"),
+            ("tuple-variant", "enum E { @ A(i32, String), B }"),
+            ("struct-variant", "enum E { @ A { x: i32 }, B }"),
+            ("struct-variant-of-tagged-enum", "#[ts(tag = \"t\")] enum E { @ A { x: i32 }, B }"),
+            ("field-of-struct-variant", "enum E { A { @ x: i32, y: i32 }, B }"),
+            ("field-of-tuple-variant", "enum E { A(@ i32, String), B }"),
+            ("field-of-newtype-variant", "enum E { A(@ i32), B }"),
+        ];
+        let mut entries: Vec<(String, String)> = vec![];
+        for slot in SLOTS {
+            for (key, v1, _) in slot.keys {
+                if !entries.iter().any(|(_, e)| e == v1) {
+                    entries.push((format!("supported:{key}"), v1.to_string()));
+                }
+            }
+        }
+        for (ukind, u) in UNSUPPORTED {
+            entries.push((format!("unsupported:{ukind}"), u.to_string()));
+        }
+        for (pos, template) in SKIP_POSITIONS {
+            let base = fill(template, "#[ts(skip)]");
+            for (kinds, e) in &entries {
+                compare(rep, "ts-skip-wins", pos, kinds, fill(template, &format!("#[ts(skip)] #[serde({e})]")), base.clone());
+                compare(rep, "ts-skip-wins", pos, kinds, fill(template, &format!("#[serde({e})] #[ts(skip)]")), base.clone());
+            }
+        }
+    }
+    // `with` needs as/type
     if serde_compat && si == 0 {
         compare(rep, "ts-skip-wins", "field", "supported:skip",
             "struct S { #[ts(skip)] #[serde(rename = \"x\", with = \"m\")] a: i32, b: i32 }".into(),
